@@ -22,7 +22,9 @@ Inductive instr :=
   | Call (g : string)     (* call of a function of the same file *)
   | CallCb (c : string)   (* call of a func-valued field (callback) *)
   | Send (ch : string)    (* blocking send on a channel field *)
-  | Recv (ch : string).   (* receive from a channel field *)
+  | Recv (ch : string)    (* receive from a channel field *)
+  | CondB | CondE.        (* begin / end of a conditionally executed block (if / loop / case body);
+                             only emitted in the program given to the notification analysis *)
 
 Definition program := list (string * list instr).
 Definition guard_map := list (string * string).   (* field -> mutex *)
@@ -90,7 +92,7 @@ Fixpoint check (G : guard_map) (O : owner_map) (X R : list string) (c : list ins
   | Rd f :: r => (match guard_of G f with Some m => mem m X || mem m R | None => false end || owner_held O f X) && check G O X R r
   | WrW f :: r | WrE f :: r => match guard_of G f with Some m => mem m X | None => false end && owner_ok O f X && check G O X R r
   | Call _ :: _ => false
-  | CallCb _ :: r | Send _ :: r | Recv _ :: r => check G O X R r
+  | CallCb _ :: r | Send _ :: r | Recv _ :: r | CondB :: r | CondE :: r => check G O X R r
   end.
 
 Definition fuel0 : nat := 12.
@@ -121,7 +123,7 @@ Fixpoint explain (G : guard_map) (O : owner_map) (X R : list string) (c : list i
                              else Some ("writes " ++ f ++ " without holding " ++ m ++ " exclusively")
                  | None => Some ("writes " ++ f ++ " which has no guard") end
   | Call g :: _ => Some ("call of " ++ g ++ " not inlined")
-  | CallCb _ :: r | Send _ :: r | Recv _ :: r => explain G O X R r
+  | CallCb _ :: r | Send _ :: r | Recv _ :: r | CondB :: r | CondE :: r => explain G O X R r
   end.
 
 Definition diagnose (G : guard_map) (P : program) : list (string * string) :=
@@ -345,6 +347,64 @@ Definition confined (G : guard_map) (fetchers : list (string * string * list str
                        | Some _ => true
                        | None => existsb (fun g => String.eqb (snd g) (strct ++ "." ++ f)) G
                        end) fields end) fetchers.
+
+(* ---- notifications come after the state they announce ----
+   A handler tells an independent status reconciler that an object changed by invoking a callback
+   (a blocking hand-over on an unbuffered channel in the programs); the reconciler may run at once
+   and reads the component's state through a fetcher that needs only the component's own lock.
+   [notify_ok cb fields strict need] on a function body with calls inlined and conditional blocks
+   bracketed by CondB / CondE:
+     - the LAST invocation of cb comes after the LAST write of one of [fields]      (order);
+     - [strict]: if that last write is unconditional, so is that last invocation    (not skipped);
+     - [need]: a body that writes [fields] invokes cb at all                        (handlers). *)
+Fixpoint nscan (cb : string) (fields : list string) (c : list instr) (i d : nat)
+               (lw ln : option (nat * nat)) : option (nat * nat) * option (nat * nat) :=
+  match c with
+  | [] => (lw, ln)
+  | CondB :: r => nscan cb fields r (S i) (S d) lw ln
+  | CondE :: r => nscan cb fields r (S i) (Nat.pred d) lw ln
+  | WrW f :: r | WrE f :: r => nscan cb fields r (S i) d (if mem f fields then Some (i, d) else lw) ln
+  | CallCb c' :: r => nscan cb fields r (S i) d lw (if String.eqb c' cb then Some (i, d) else ln)
+  | _ :: r => nscan cb fields r (S i) d lw ln
+  end.
+Definition notify_ok (cb : string) (fields : list string) (strict need : bool) (c : list instr) : bool :=
+  match nscan cb fields c 0 0 None None with
+  | (None, _) => true
+  | (Some _, None) => negb need
+  | (Some (iw, dw), Some (inn, dn)) =>
+      Nat.ltb iw inn && (if strict && Nat.eqb dw 0 then Nat.eqb dn 0 else true)
+  end.
+(* notifier: callback, the fields its consumer's fetcher reads, strict?, name prefix of the functions
+   of the notifying struct *)
+Definition notifier := (string * list string * bool * string)%type.
+Definition notify_violations (P : program) (entries : list string) (ns : list notifier) : list (string * string) :=
+  flat_map (fun n => match n with (cb, fields, strict, scope) =>
+    flat_map (fun p => if String.prefix scope (fst p) then
+                         match inline fuel0 P (snd p) with
+                         | Some c => if notify_ok cb fields strict (mem (fst p) entries) c then [] else [(fst p, cb)]
+                         | None => [(fst p, "call depth exceeded")] end
+                       else []) P end) ns.
+Definition notify_after_state (P : program) (entries : list string) (ns : list notifier) : bool :=
+  match notify_violations P entries ns with [] => true | _ => false end.
+
+(* what the order buys: an eager consumer publishes the component's state at every notification;
+   a handler is a trace of state writes and notifications *)
+Section Notify.
+  Variable S : Type.
+  Inductive nev := NWrite (f : S -> S) | NNotify.
+  Definition nstep (sp : S * S) (e : nev) : S * S :=      (* (state, last published) *)
+    match e with NWrite f => (f (fst sp), snd sp) | NNotify => (fst sp, fst sp) end.
+  Definition nrun (t : list nev) (sp : S * S) : S * S := fold_left nstep t sp.
+  Definition is_write (e : nev) : bool := match e with NWrite _ => true | NNotify => false end.
+  (* every write is followed by a later notification (= no write after the last notification, and a
+     trace that writes notifies) *)
+  Fixpoint ends_notified (t : list nev) : bool :=
+    match t with
+    | [] => true
+    | NWrite _ :: r => existsb (fun e => negb (is_write e)) r && ends_notified r
+    | NNotify :: r => ends_notified r
+    end.
+End Notify.
 
 (* ---- interleaving semantics ---- *)
 Record thread := mk_thread { hx : list string; hr : list string; code : list instr }.
